@@ -63,15 +63,20 @@ Print Assumptions C20_cache_all_methods.
    in the tables extracted by the translator, a package-level variable of loaders / merklize is
    written (assignment, op=, ++/--, element or field assignment, delete, address-of) only by
    SetHasher / SetDocumentLoader, no method of *Merklizer other than UnmarshalBinary and no method
-   of *documentLoader assigns a receiver field. *)
+   of *documentLoader assigns a receiver field, and the only assignment a documentLoader method makes
+   through a document pointer obtained from cacheEngine.Get / another loader method (a possibly shared
+   cache entry) is the nil-guarded `doc.Document` of loadDocumentFromHTTP. *)
 Theorem C20_pure :
   (forall p v ws w, In (p, v, ws) generated_pkg_vars -> In w ws ->
      In (p, v, w) [("merklize", "defaultHasher", "SetHasher"); ("merklize", "defaultDocumentLoader", "SetDocumentLoader")]) /\
   (forall m fs, In (m, fs) generated_merklizer_methods -> fs <> [] -> In m ["UnmarshalBinary"]) /\
-  (forall m fs, In (m, fs) generated_loader_methods -> fs <> [] -> False).
+  (forall m fs, In (m, fs) generated_loader_methods -> fs <> [] -> False) /\
+  (forall m ws w, In (m, ws) generated_loader_shared_writes -> In w ws ->
+     In (m, w) [("loadDocumentFromHTTP", "doc.Document")]).
 Proof.
   exact (conj (pkg_vars_ok_spec _ (proj1 cache_pure))
         (conj (methods_readonly_spec _ _ (proj1 (proj2 cache_pure)))
-              (methods_readonly_spec _ _ (proj2 (proj2 cache_pure))))).
+        (conj (methods_readonly_spec _ _ (proj1 (proj2 (proj2 cache_pure))))
+              (shared_writes_ok_spec _ (proj2 (proj2 (proj2 cache_pure))))))).
 Qed.
 Print Assumptions C20_pure.
